@@ -1,6 +1,7 @@
 (* C06 — property theorems only.  Each is closed by [exact] of a lemma proved in
    C06_Proofs.v and followed by Print Assumptions. *)
 Require Import V.Lib V.GoPath V.C06_Model V.C06_Proofs.
+Require Import Permutation.
 Open Scope N_scope.
 Delimit Scope string_scope with string.
 
@@ -291,3 +292,165 @@ Proof.
   split; [vm_compute; reflexivity|]. split; [vm_compute; reflexivity|]. vm_compute. discriminate.
 Qed.
 Print Assumptions C06_clientauth_policy_governs_refuted_all_wildcard_site.
+
+(* ---- mixing is rejected in EVERY order of the group ----
+   [mixed] does not look at positions; stated with the order explicit: whatever permutation of a
+   mixed group MakeTLSConfig is given (plaintext site first, TLS site first, a nil entry first or
+   last ...), it returns an error — never "no TLS" (a plaintext listener that would serve the TLS
+   sites in the clear) and never a TLS group. *)
+Theorem C06_mixing_rejected_any_order :
+  forall dc bad cs cs', Permutation cs cs' -> mixed cs = true ->
+  exists e, make_tls_config dc bad cs' = MkErr e.
+Proof. exact mixing_rejected_any_order. Qed.
+Print Assumptions C06_mixing_rejected_any_order.
+
+Theorem C06_mixing_never_a_listener :
+  forall dc bad cs, mixed cs = true ->
+  make_tls_config dc bad cs <> MkNil /\ forall g, make_tls_config dc bad cs <> MkGroup g.
+Proof. exact mixing_never_a_listener. Qed.
+Print Assumptions C06_mixing_never_a_listener.
+
+Example C06_mixing_rejected_any_order_nonvacuous :
+  let tls h := Some (mkT (bs h) true TLS12 TLS13 [] [] [] true 0 [] false) in
+  let plain h := Some (empty_cfg (bs h)) in
+  forallb (fun cs => match make_tls_config (default_ciphers true) [] cs with MkErr 1 => true | _ => false end)
+    [ [plain "p.com"%string; tls "a.com"%string];
+      [tls "a.com"%string; plain "p.com"%string];
+      [None; tls "a.com"%string];
+      [tls "a.com"%string; None];
+      [plain "p.com"%string; plain "q.com"%string; tls "a.com"%string];
+      [plain "p.com"%string; tls "a.com"%string; plain "q.com"%string];
+      [tls "a.com"%string; tls "b.com"%string; plain "p.com"%string];
+      [None; plain "p.com"%string; tls "a.com"%string] ] = true /\
+  Permutation [plain "p.com"%string; tls "a.com"%string] [tls "a.com"%string; plain "p.com"%string].
+Proof. split; [vm_compute; reflexivity | apply perm_swap]. Qed.
+
+(* ---- which config governs a handshake WITHOUT SNI ----
+   For every group, default server name (-default-sni), local address and every SNI value that is
+   empty after normalisation:
+   1. a default server name d is resolved exactly like an SNI name — d itself, d with its k
+      leftmost labels starred (k = 1..n), the catch-all "" ([spec_cands d], the first that is a
+      key governs), the arbitrary failover config when none is; the local address plays no part;
+   2. without one, a config keyed by the local IP address of the connection governs;
+   3. otherwise the catch-all config "" (which 0.0.0.0 / :: sites are stored under), else a
+      config named "*" (the one wildcard candidate of the empty name), else the failover. *)
+Theorem C06_default_sni_governs_no_sni_handshake :
+  forall (V : Type) (m : amap V) dflt conn sni,
+  normalized_name sni = [] ->
+  let d := normalized_name dflt in
+  (d <> [] ->
+     get_config m dflt conn sni =
+       match find_key m (spec_cands d) with
+       | Some (k, v) => Found k v
+       | None => match m with [] => NoConfig | _ => Fallback end
+       end) /\
+  (d = [] -> forall a v, conn = Some a -> mget (host_only a) m = Some v ->
+     get_config m dflt conn sni = Found (host_only a) v) /\
+  (d = [] -> (conn = None \/ exists a, conn = Some a /\ mget (host_only a) m = None) ->
+     get_config m dflt conn sni =
+       match mget [] m with
+       | Some v => Found [] v
+       | None => match mget [STAR] m with
+                 | Some v => Found [STAR] v
+                 | None => match m with [] => NoConfig | _ => Fallback end
+                 end
+       end).
+Proof. exact no_sni_governing. Qed.
+Print Assumptions C06_default_sni_governs_no_sni_handshake.
+
+Example C06_default_sni_governs_nonvacuous :
+  let m := [(bs "*.a.com"%string, 1%nat); ([], 2%nat); (bs "10.0.0.1"%string, 3%nat); (bs "b.com"%string, 4%nat)] in
+  normalized_name (bs " "%string) = [] /\
+  (* the default name through a wildcard site, exactly, and through the catch-all: the site named
+     by the local address is not consulted *)
+  get_config m (bs "X.a.com"%string) (Some (bs "10.0.0.1:443"%string)) [] = Found (bs "*.a.com"%string) 1%nat /\
+  get_config m (bs "b.com"%string) (Some (bs "10.0.0.1:443"%string)) [] = Found (bs "b.com"%string) 4%nat /\
+  get_config m (bs "z.org"%string) (Some (bs "10.0.0.1:443"%string)) [] = Found [] 2%nat /\
+  (* no default name: local address, then catch-all, then "*", then failover *)
+  get_config m [] (Some (bs "10.0.0.1:443"%string)) (bs " "%string) = Found (bs "10.0.0.1"%string) 3%nat /\
+  get_config m [] (Some (bs "10.9.9.9:443"%string)) [] = Found [] 2%nat /\
+  get_config [(bs "*"%string, 5%nat); (bs "b.com"%string, 4%nat)] [] None [] = Found (bs "*"%string) 5%nat /\
+  get_config [(bs "b.com"%string, 4%nat)] [] None [] = Fallback.
+Proof. vm_compute. repeat split; reflexivity. Qed.
+
+(* ---- the strict no-SNI refusal, tied to it ----
+   serveHTTP (handshakeWithoutSNIElsewhere) refuses a request without SNI at a client-certificate
+   site whenever a default server name is set — whether that name belongs to a site exactly,
+   through a WILDCARD, or to none (case 1 above: the handshake is resolved under that name) — and
+   whenever a site is named by the local address (case 2). *)
+Theorem C06_no_sni_refused_under_default_name :
+  forall sites dflt conn rhost i s,
+  trim_space dflt <> [] -> nth_error sites i = Some s -> demands (s_tls s) = true ->
+  serve sites dflt conn (Some []) rhost <> Served i.
+Proof. exact sniless_refused_under_default_name. Qed.
+Print Assumptions C06_no_sni_refused_under_default_name.
+
+Theorem C06_no_sni_refused_under_local_address_site :
+  forall sites dflt a rhost i s s',
+  In s' sites -> host (s_tls s') = host_only a -> nth_error sites i = Some s -> demands (s_tls s) = true ->
+  serve sites dflt (Some a) (Some []) rhost <> Served i.
+Proof. exact sniless_refused_under_local_address_site. Qed.
+Print Assumptions C06_no_sni_refused_under_local_address_site.
+
+Example C06_no_sni_refused_nonvacuous :
+  (* the default name is covered by the wildcard site only: that site's open config governs the
+     handshake, the catch-all site that demands certificates refuses the request *)
+  let sites := [mtls_site ":443"%string ""%string; open_site "*.a.com:443"%string "*.a.com"%string] in
+  trim_space (bs "x.a.com"%string) <> [] /\
+  serve sites (bs "x.a.com"%string) (Some (bs "10.0.0.1:443"%string)) (Some []) [] = Forbidden 0 /\
+  (exists g i c b, make_tls_config (default_ciphers true) [] (map (fun s => Some (s_tls s)) sites) = MkGroup g /\
+     get_config g (bs "x.a.com"%string) (Some (bs "10.0.0.1:443"%string)) [] = Found (bs "*.a.com"%string) (i, c, Some b) /\
+     b_cauth b = 0) /\
+  (* without the default name the catch-all governs and the site answers *)
+  serve sites [] (Some (bs "10.0.0.1:443"%string)) (Some []) [] = Served 0.
+Proof.
+  split; [vm_compute; discriminate|]. split; [vm_compute; reflexivity|].
+  split; [do 4 eexists; split; [vm_compute; reflexivity|split; vm_compute; reflexivity]|]. vm_compute. reflexivity.
+Qed.
+
+(* A client-certificate site never answers a request whose handshake (without SNI) was governed by
+   another site's config: when it serves, no default name is set, no site is named by the local
+   address, the governing config is not the arbitrary failover one, and whatever entry governed
+   carries settings equal to the site's own.  As for C06_clientauth_policy_governs_partial this
+   needs a site set without a site named by a wildcard candidate of the router's fallback hosts
+   (open finding F-C06-4). *)
+Theorem C06_no_sni_clientauth_never_under_foreign_config_partial :
+  forall dc bad sites g dflt conn rhost v s,
+  make_tls_config dc bad (map (fun s => Some (s_tls s)) sites) = MkGroup g ->
+  (forall s, In s sites -> vhost_key (s_addr s) = host (s_tls s)) ->
+  (forall c, In c fallback_star_names -> mget c (vhosts sites) = None) ->
+  serve sites dflt conn (Some []) rhost = Served v -> nth_error sites v = Some s -> demands (s_tls s) = true ->
+  normalized_name dflt = [] /\
+  (forall a s', conn = Some a -> In s' sites -> host (s_tls s') <> host_only a) /\
+  get_config g dflt conn [] <> Fallback /\
+  forall k i c ob, get_config g dflt conn [] = Found k (i, c, ob) -> build dc bad (s_tls s) = Some ob.
+Proof. exact no_sni_clientauth_own_config. Qed.
+Print Assumptions C06_no_sni_clientauth_never_under_foreign_config_partial.
+
+Example C06_no_sni_clientauth_never_under_foreign_config_nonvacuous :
+  let sites := [mtls_site ":443"%string ""%string; open_site "127.0.0.1:443"%string "127.0.0.1"%string;
+                open_site "*.a.com:443"%string "*.a.com"%string] in
+  (exists g, make_tls_config (default_ciphers true) [] (map (fun s => Some (s_tls s)) sites) = MkGroup g) /\
+  (forall s, In s sites -> vhost_key (s_addr s) = host (s_tls s)) /\
+  (forall c, In c fallback_star_names -> mget c (vhosts sites) = None) /\
+  serve sites [] (Some (bs "10.0.0.1:443"%string)) (Some []) [] = Served 0.
+Proof.
+  split; [eexists; vm_compute; reflexivity|].
+  split; [intros s [<-|[<-|[<-|[]]]]; vm_compute; reflexivity|].
+  split; [|vm_compute; reflexivity].
+  intros c Hc. vm_compute in Hc. repeat (destruct Hc as [<-|Hc]; [vm_compute; reflexivity|]). destruct Hc.
+Qed.
+
+(* Without that condition it is false of the code also for a handshake without SNI: the router
+   finds the site named "*" for the empty host (its one wildcard candidate) while the catch-all
+   config — here the open 0.0.0.0 site's — governs the handshake (replayed on the real server,
+   corpus/C06/all_wildcard_site.json; finding F-C06-4). *)
+Theorem C06_no_sni_clientauth_never_under_foreign_config_refuted :
+  served_under_foreign_policy [open_site "0.0.0.0:443"%string "0.0.0.0"%string; mtls_site "*:443"%string "*"%string]
+                              [] None [] [].
+Proof.
+  unfold served_under_foreign_policy. do 7 eexists.
+  split; [vm_compute; reflexivity|]. split; [vm_compute; reflexivity|]. split; [vm_compute; reflexivity|].
+  split; [vm_compute; reflexivity|]. split; [vm_compute; reflexivity|]. vm_compute. discriminate.
+Qed.
+Print Assumptions C06_no_sni_clientauth_never_under_foreign_config_refuted.
